@@ -362,11 +362,10 @@ pub fn op2(op: Op2, tl: &[Ev]) -> Option<Exp2> {
         if p == 0 || same_err_type {
           return exact(out, T::Err(e));
         }
-        // notifier error of take_until / skip_until: swallowed; what follows
-        // for skip_until before its first item is unspecified
-        if op == Op2::SkipUntil && !b_seen_item {
-          return None;
-        }
+        // notifier error of take_until / skip_until: swallowed. For skip_until
+        // before its first item: an error is not an item, "switch exactly at the
+        // notifier's first item" keeps the gate closed (only the notifier
+        // *completing* without an item is left unspecified, below)
       }
       Note::C => {
         completed[p] = true;
